@@ -106,6 +106,13 @@ def r42(facts, res):
                      and isinstance(v, int)]
             empty += [1 - v for c, v in p.conds if c[0] == 'bin' and c[1] == 'Lt' and c[2] == ('const', 0) and has_call(c[3], 'len') and isinstance(v, int)]
             empty += [v for c, v in p.conds if c[0] == 'bin' and c[1] == 'Le' and c[3] == ('const', 0) and has_call(c[2], 'len') and isinstance(v, int)]
+            empty += [1 - v for c, v in p.conds if c[0] == 'bin' and c[1] == 'Gt' and c[3] == ('const', 0) and has_call(c[2], 'len') and isinstance(v, int)]
+            empty += [v for c, v in p.conds if c[0] == 'bin' and c[1] == 'Ge' and c[2] == ('const', 0) and has_call(c[3], 'len') and isinstance(v, int)]
+            # laidx - 1 does not exist (checked_sub answered None): laidx == 0, and with laidx >= len there are no lexemes
+            if not empty and cond_ok and any(c[0] == 'discr' and is_call(c[1], 'checked_sub') and strip_ref(c[1][2][0]) == ('param', 2) and c[1][2][1] == ('const', 1) and v == 0
+                                               for c, v in p.conds):
+                empty = [1]
+            empty = sorted(set(empty))
             if is_const(st) and st[1] == 0:
                 pos_ok = pos_ok and empty == [1]
             else:
